@@ -1,4 +1,5 @@
 import Heathcliff.Proofs.C11N
+import Heathcliff.Proofs.C11P
 
 /- Property theorems only (statements verbatim; proofs are the helper lemmas of Heathcliff/Proofs). -/
 namespace HC.C11
@@ -58,5 +59,19 @@ theorem slotExp_rotate {k i s : Nat} (hk : 2 ≤ k) (hi : i < 2^k) :
 
 theorem slotExp_swap {k i : Nat} (hk : 1 ≤ k) (hi : i < 2^k) :
     (slotExp k i * (2 * 2^k - 1)) % (2 * 2^k) = slotExp k ((i + 2^k / 2) % 2^k) := HC.slotExp_swap hk hi
+
+/-! ### the model's encoder / decoder on tables built by the model's constructor (Proofs/C11P.lean) -/
+
+/-- **MODEL ROUND TRIP for every N = 2^k (1 ≤ k ≤ 60) and every plain modulus `NTTTables.new` accepts** (only primes t ≡ 1 mod 2N are
+    accepted: `batch_tables_only_for_batching_primes`): the model's `batchEncode` followed by the model's `batchDecode` is the
+    identity with zero padding; the encoding is a canonical plaintext of N coefficients -/
+theorem batch_round_trip_of_new : type_of% @HC.batch_round_trip_of_new := @HC.batch_round_trip_of_new
+
+/-- ... and `batchEncode ∘ batchDecode` = identity on canonical plaintexts of full length (bijection) -/
+theorem batch_encode_decode_of_new : type_of% @HC.batch_encode_decode_of_new := @HC.batch_encode_decode_of_new
+
+/-- the constructor returns tables only for a prime modulus with 2N | t − 1 -/
+theorem batch_tables_only_for_batching_primes : type_of% @HC.batch_tables_only_for_batching_primes :=
+  @HC.batch_tables_only_for_batching_primes
 
 end HC.C11
